@@ -10,8 +10,9 @@ LEVEL = "proof"
 PROPS = "Detect/Props_C20.v"
 COQ_FILES = ["Detect/Index.v", "Detect/Model.v", "Detect/Cases.v", "Detect/Proofs.v", "Detect/Props_C20.v"]
 THEOREMS = ["index_complete_exact", "index_enumerations_exact", "each_detector_once", "status_per_detector",
-            "validation_decides_consistency", "advisory_conflict_fails", "findings_intact_refuted",
-            "findings_intact_on_D", "findings_content_intact", "scan_reports", "cancelled_run_reports_nothing"]
+            "validation_decides_consistency", "advisory_conflict_fails", "findings_intact",
+            "findings_content_intact", "detector_findings_not_mutated", "scan_reports", "cancelled_run_reports_nothing"]
+CORPUS = os.path.join(vlib.HARNESS, "cmd", "detect", "corpus")
 CORR = ("detector.Run + packageindex.New and scalibr.Scan with fake extractors/detectors (Go) vs "
         "Detect.Model.detector_run / scan_tail + Detect.Index (Coq, vm_compute)")
 HEADER = ("From Coq Require Import List NArith ZArith Bool.\nFrom Scalibr Require Import Detect.Index Detect.Model Detect.Cases.\n"
@@ -19,7 +20,7 @@ HEADER = ("From Coq Require Import List NArith ZArith Bool.\nFrom Scalibr Requir
 
 META = {
     "technique": "Coq proofs over a model of detector.Run / validateAdvisories / packageindex / the tail of Scan "
-                 "(pointer-level model of the Detectors tagging) + vm_compute correspondence against the real "
+                 "(pointer-level model: tagged copies, no write through detector-owned pointers) + vm_compute correspondence against the real "
                  "detector.Run, packageindex.New and scalibr.Scan driven with fake extractors and detectors",
     "level_text": "For every inventory and every list of detectors (any number, any finding lists, error flags): "
                   "GetSpecific(name,type) of the index = the extracted packages with that purl, in order, packages "
@@ -27,10 +28,10 @@ META = {
                   "called once, in order, with that index (each_detector_once); one status per detector reflecting its "
                   "error (status_per_detector); Run fails iff a finding lacks an advisory/ID or two findings share an ID "
                   "with different advisory content, and then reports no finding and the scan status is Failed "
-                  "(advisory_conflict_fails, scan_reports). 'Every finding tagged with its detector' is REFUTED at full "
-                  "strength (findings_intact_refuted: the same *Finding returned by two detectors is re-tagged) and proved "
-                  "on D = no pointer shared across detector names (findings_intact_on_D); finding content is intact "
-                  "everywhere (findings_content_intact).",
+                  "(advisory_conflict_fails, scan_reports); every finding a detector returns appears, in order, tagged with "
+                  "that detector's name - at full strength, including *Finding pointers shared between detectors "
+                  "(findings_intact; refuted before /repo fix 08ea3f5f, witness kept as regression corpus); Run writes nothing into "
+                  "the detectors' own Finding values (detector_findings_not_mutated).",
     "level_note": "Trusted: Coq kernel + vm_compute; harness harness/cmd/detect (fake extractors with ToPURL from "
                   "metadata, fake detectors, in-memory FS); context cancellation is modelled and compared but lies outside "
                   "the property's quantifier; nil *Finding elements, NaN CVSS scores, packages with nil Extractor and "
@@ -58,17 +59,16 @@ def shard_and_run(ctx, vfile):
         v = header + body + (
             "Definition corr_bad := Eval vm_compute in bad_indices case_model_ok %s 0.\nPrint corr_bad.\n"
             "Definition spec_bad := Eval vm_compute in bad_indices case_spec_ok %s 0.\nPrint spec_bad.\n"
-            "Definition full_bad := Eval vm_compute in bad_indices case_spec_full %s 0.\nPrint full_bad.\n"
-            "Definition notd_idx := Eval vm_compute in bad_indices in_D %s 0.\nPrint notd_idx.\n"
+            "Definition alias_idx := Eval vm_compute in bad_indices (fun c => negb (has_alias c)) %s 0.\nPrint alias_idx.\n"
             "Definition unclaimed := Eval vm_compute in bad_indices claimed %s 0.\nPrint unclaimed.\n"
-            % (name, name, name, name, name))
+            % (name, name, name, name))
         rc, out = ctx.run_cases("C20_shard_%d" % k, v)
-        res = [vlib.parse_printed_list(out, n) for n in ("corr_bad", "spec_bad", "full_bad", "notd_idx", "unclaimed")]
+        res = [vlib.parse_printed_list(out, n) for n in ("corr_bad", "spec_bad", "alias_idx", "unclaimed")]
         if rc != 0 or any(r is None for r in res):
             raise RuntimeError("cases shard %d failed: %s" % (k, out[-1500:]))
         return [[k * per + i for i in r] for r in res]
 
-    acc = [[], [], [], [], []]
+    acc = [[], [], [], []]
     with ThreadPoolExecutor(max_workers=12) as ex:
         for res in ex.map(one, range(len(chunks))):
             for a, r in zip(acc, res):
@@ -78,7 +78,7 @@ def shard_and_run(ctx, vfile):
 
 def eval_one(ctx, name, coq_case):
     v = HEADER + ("Definition c : dcase := %s.\n"
-                  "Definition r_model := Eval vm_compute in [case_model_ok c; case_spec_ok c; case_spec_full c; in_D c; claimed c].\nPrint r_model.\n"
+                  "Definition r_model := Eval vm_compute in [case_model_ok c; case_spec_ok c; has_alias c; claimed c].\nPrint r_model.\n"
                   "Definition model_findings := Eval vm_compute in map t_dets (rr_findings (detector_run (index_new (c_fs c ++ c_sa c)) (c_dets c) (c_ctx0 c))).\nPrint model_findings.\n"
                   "Definition spec_findings := Eval vm_compute in map t_dets (expected_findings (c_dets c)).\nPrint spec_findings.\n"
                   % coq_case)
@@ -87,7 +87,7 @@ def eval_one(ctx, name, coq_case):
     if rc != 0 or not m:
         raise RuntimeError("single-case evaluation failed: " + out[-1500:])
     vals = [x.strip() == "true" for x in m.group(1).split(";")]
-    return dict(zip(["model_ok", "spec_ok_on_D", "spec_full", "in_D", "claimed"], vals)), out
+    return dict(zip(["model_ok", "spec_ok", "has_alias", "claimed"], vals)), out
 
 
 def run_single(ctx, binp, case, tag):
@@ -124,26 +124,30 @@ def run(ctx):
         ctx.coverage["trusted_base"] = vlib.std_trusted_base(pa)
         return
 
-    # ---- known findings: replay each witness on the implementation
-    known_domains_ok = True
+    # ---- regression corpus first (witnesses of fixed findings, at full strength)
+    corpus = sorted(f for f in os.listdir(CORPUS) if f.endswith(".json")) if os.path.isdir(CORPUS) else []
+    for fn in corpus:
+        case = json.load(open(os.path.join(CORPUS, fn)))["case"]
+        tag = re.sub(r"\W", "_", fn[:-5])
+        obs, coq = run_single(ctx, binp, case, "corpus_" + tag)
+        r, out = eval_one(ctx, "C20_corpus_" + tag, coq)
+        ctx.log("corpus %s: %s" % (fn, r))
+        if not r["spec_ok"]:
+            ctx.violation({"kind": "spec-failure", "case": dict(case, **obs), "corpus_file": fn,
+                           "explanation": "regression corpus: the witness of a fixed finding violates the property again"})
+        elif not r["model_ok"]:
+            ctx.violation({"kind": "correspondence-broken", "correspondence": CORR, "first_mismatch": dict(case, **obs),
+                           "corpus_file": fn, "theorems_no_longer_tied_to_code": THEOREMS}, nofail=True)
+    ctx.coverage["regression_corpus"] = corpus
+    # ---- known findings (none listed for C20 at present): replay each witness
     for e in ctx.known_findings():
-        obs, coq = run_single(ctx, binp, e["witness"], "known_" + e["id"])
-        r, out = eval_one(ctx, "C20_known_" + re.sub(r"\W", "_", e["id"]), coq)
-        ctx.log("known finding %s: %s" % (e["id"], r))
-        if not r["spec_full"] and r["model_ok"]:
+        obs, coq = run_single(ctx, binp, e["witness"], "known")
+        r, out = eval_one(ctx, "C20_known", coq)
+        if not r["spec_ok"] and r["model_ok"]:
             ctx.print_known(e)
-        elif r["spec_full"]:
-            # the witness no longer fails on the implementation
-            ctx.violation({"kind": "known-finding-stale", "finding": e["id"], "stale_theorem": e.get("refuted_theorem"),
-                           "witness": e["witness"], "observed": obs, "model_agrees": r["model_ok"],
-                           "explanation": "the listed witness no longer violates the full-strength statement on the "
-                                          "implementation while the model (theorem %s) still predicts it: the code was "
-                                          "changed, model and theorems must follow" % e.get("refuted_theorem")}, nofail=True)
-            known_domains_ok = False
         else:
-            ctx.violation({"kind": "correspondence-broken", "correspondence": CORR, "first_mismatch": dict(e["witness"], **obs),
-                           "theorems_no_longer_tied_to_code": THEOREMS,
-                           "explanation": "known-finding witness: implementation fails differently from the model"}, nofail=True)
+            ctx.violation({"kind": "known-finding-stale", "finding": e["id"], "stale_theorem": e.get("refuted_theorem"),
+                           "witness": e["witness"], "observed": obs, "model_agrees": r["model_ok"]}, nofail=True)
 
     d = os.path.join(vlib.BUILD, "cases")
     os.makedirs(d, exist_ok=True)
@@ -158,14 +162,11 @@ def run(ctx):
         raise RuntimeError("harness failed: " + out[-2000:])
     cases = [json.loads(l) for l in open(side)]
     ctx.log("harness ran %d cases" % len(cases))
-    corr_bad, spec_bad, full_bad, notd, unclaimed = shard_and_run(ctx, vfile)
-    ctx.log("corr_bad=%d spec_bad=%d full_strength_bad=%d outside_D=%d unclaimed(cancelled)=%d"
-            % (len(corr_bad), len(spec_bad), len(full_bad), len(notd), len(unclaimed)))
-    # every full-strength failure must be explained by a listed known finding (= lie outside its domain)
-    have_known = any(e["id"] == "shared-finding-pointer-retagged" for e in ctx.known_findings())
-    unexplained = [i for i in full_bad if i not in set(notd)] if have_known else list(full_bad)
+    corr_bad, spec_bad, alias_idx, unclaimed = shard_and_run(ctx, vfile)
+    ctx.log("corr_bad=%d spec_bad=%d cases_with_shared_pointers=%d unclaimed(cancelled)=%d"
+            % (len(corr_bad), len(spec_bad), len(alias_idx), len(unclaimed)))
     # report the smallest failing cases first
-    spec_bad = sorted(set(spec_bad) | set(unexplained),
+    spec_bad = sorted(set(spec_bad),
                       key=lambda i: (sum(len(x["results"]) for x in cases[i]["dets"]) + len(cases[i]["dets"])
                                      + len(cases[i]["fs_pkgs"]) + len(cases[i]["sa_pkgs"]), i))
 
@@ -208,9 +209,8 @@ def run(ctx):
                                "findings_per_case": {str(k): v for k, v in sorted(nfind.items())},
                                "outcomes": outcome, "features": flags,
                                "packages_with_purl": purl_pk, "packages_without_purl": nopurl_pk,
-                               "outside_domain_D": len(notd), "fraction_outside_D": round(len(notd) / max(1, len(cases)), 4),
+                               "cases_with_shared_finding_pointers": len(alias_idx),
                                "not_claimed_cancelled": len(unclaimed)},
-        "full_strength_failures_outside_D": len(full_bad),
         "vm_compute_cases": len(cases),
         "explanation": "exhaustive small scope: every inventory of <= %s packages over {no purl, 3 purls} x 3 fs/standalone "
                        "splits; every assignment of <= %s findings in total (alphabet: nil advisory, advisory without ID, 2 IDs x 2 "
@@ -248,7 +248,6 @@ def replay(ctx, path):
     print("implementation (detector.Run):", json.dumps(obs["run"]))
     print("implementation (scalibr.Scan):", json.dumps(obs.get("scan")))
     r, out = eval_one(ctx, "C20_replay", coq)
-    print("model agrees: %s; spec on D holds: %s; full-strength spec holds: %s; in D: %s" %
-          (r["model_ok"], r["spec_ok_on_D"], r["spec_full"], r["in_D"]))
+    print("model agrees: %s; spec holds: %s; shared pointers: %s" % (r["model_ok"], r["spec_ok"], r["has_alias"]))
     print(out)
     return 0
